@@ -57,6 +57,10 @@ def gen_cases(rng, tier, count=None):
                             for _ in box]
                 c["chain"] = "origin"
                 c.pop("alias_box", None)
+        if rng.random() < 0.25 and not big:
+            # a second partition of the same class over another box is alive and grows in between
+            d2 = dim if rng.random() < 0.7 else int(rng.integers(1, 4))
+            c["companion"] = {"box": C.gen_box(rng, d2)[0], "built_first": bool(rng.random() < 0.5)}
         if name.startswith("R") and rng.random() < 0.6:
             c["inject"] = {"uniform_p": float(rng.choice([0.2, 0.5, 1.0])), "seed": int(rng.integers(1 << 30))}
         out.append(c)
